@@ -198,6 +198,46 @@ BIN = ["0b0", "0b1", "0B101", "0b11111111", "0b" + "1" * 31, "0b1" + "0" * 31, "
 FLT = ["0.0", "0.5", "1.0", "1.5", "2.0", "2.5", "3.0", "4.0", "0.25", "8.0", "1e3", "1.5e2", "2.5E1", ".5", "1.",
        "100.0", "16777216.0", "4294967296.0", "9007199254740992.0", "1e0", "2E+1", "5e-1"]
 FLT_BIG = ["170141183460469231731687303715884105728.0f"]   # 2^127: the next doubling overflows float
+# Where integer -> float / double conversion rounds.  The floating literals below are all exactly representable in
+# their type (so literal parsing cannot differ between atof and the compiler); the *integers* next to them are not
+# representable in the floating type the usual arithmetic conversions turn them into, including round-to-even ties
+# (2^24+1 -> 2^24, 2^24+3 -> 2^24+4, 2^53+1 -> 2^53, 2^53+3 -> 2^53+4).
+CONV_INT = ["16777215", "16777216", "16777217", "16777218", "16777219", "33554433", "2147483647", "2147483649",
+            "4294967295u", "4294967295", "9007199254740991", "9007199254740992", "9007199254740993", "9007199254740995",
+            "9223372036854775807", "9223372036854775807L", "18446744073709551615u", "16777217L", "16777217u",
+            "9007199254740993UL", "- 16777217", "- 9007199254740993"]
+CONV_F32 = ["16777216.0f", "16777218.0f", "16777220.0f", "33554432.0f", "2147483648.0f", "4294967296.0f",
+            "9007199254740992.0f", "9223372036854775808.0f", "18446744073709551616.0f", "- 16777216.0f"]
+CONV_F64 = ["16777217.0", "9007199254740992.0", "9007199254740994.0", "9007199254740996.0", "9223372036854775808.0",
+            "18446744073709551616.0", "- 9007199254740992.0"]
+CONV_OPS = ["==", "!=", "<", "<=", ">", ">=", "+", "-", "*", "/"]
+
+
+def conversion_cases(tier="thorough"):
+    """mixed integer / float32 / double comparisons and arithmetic around 2^24, 2^31, 2^32, 2^53, 2^63, 2^64: the
+    conversion of the integer operand into the floating type of the other operand happens before the operation"""
+    quick = (tier == "quick")
+    ints = CONV_INT[::2] + ["16777217", "9007199254740993"] if quick else CONV_INT
+    flts = (CONV_F32[::2] + CONV_F64[::2] + ["16777216.0f", "9007199254740992.0"]) if quick else (CONV_F32 + CONV_F64)
+    ops = ["==", "!=", "<", "+"] if quick else CONV_OPS
+    cases = []
+    for i in ints:
+        for f in flts:
+            for op in ops:
+                cases.append("( ( %s ) %s ( %s ) )" % (i, op, f))
+                if not quick or op == "==":
+                    cases.append("( ( %s ) %s ( %s ) )" % (f, op, i))
+    # float32 against double neighbours, and the conversion inside ?: conditions, ! and && ||
+    for a in CONV_F32:
+        for b in CONV_F64:
+            for op in (("==", "<") if quick else ("==", "!=", "<", "+", "-")):
+                cases.append("( ( %s ) %s ( %s ) )" % (a, op, b))
+    cases += ["( ( 16777217 == 16777216.0f ) ? 10 : 20 )", "( ( 2147483647 == 2147483648.0f ) ? 10 : 20 )",
+              "( ( 4294967295u != 4294967296.0f ) || ( 9007199254740993 != 9007199254740992.0 ) )",
+              "( ! ( 16777217 != 16777216.0f ) )", "( ( 16777217L == 16777216.0f ) && ( 16777217 != 16777217.0 ) )",
+              "( ( 9007199254740993 == 9007199254740992.0 ) + ( 9007199254740993 == 9007199254740992.0f ) )"]
+    seen = set()
+    return [c for c in cases if not (c in seen or seen.add(c))]
 
 
 def gen_lit(rng, kind=None):
@@ -209,6 +249,9 @@ def gen_lit(rng, kind=None):
             return ("lit", rng.choice(DEC_U_ONLY) + rng.choice(["u", "UL", "ull", "U"]))
         if rng.random() < 0.2:
             return ("lit", str(rng.randint(0, 1 << rng.choice([8, 16, 31, 32, 33, 62]))) + rng.choice(SUF))
+        if rng.random() < 0.08:
+            return ("lit", rng.choice(["16777215", "16777217", "16777219", "33554433", "9007199254740993",
+                                       "9007199254740995"]) + rng.choice(["", "", "u", "L", "UL"]))
         return ("lit", rng.choice(DEC) + rng.choice(SUF))
     if k == "hex":
         if rng.random() < 0.2:
@@ -223,6 +266,8 @@ def gen_lit(rng, kind=None):
     if k == "flt":
         if rng.random() < 0.03:
             return ("lit", rng.choice(FLT_BIG))
+        if rng.random() < 0.12:
+            return ("lit", rng.choice([f for f in CONV_F32 + CONV_F64 if not f.startswith("-")]))
         return ("lit", rng.choice(FLT) + rng.choice(["", "", "f", "F"]))
     raise ValueError(k)
 
@@ -679,7 +724,7 @@ def run(run, tier, seed, replay_case=None):
     rng = random.Random(seed * 7919 + 14)
     corpus = C.load_corpus(PROP)
     n = 1500 if tier == "quick" else 30000
-    cases = list(corpus) + boundary_cases(tier) + gen_cases(rng, n, tier)
+    cases = list(corpus) + boundary_cases(tier) + conversion_cases(tier) + gen_cases(rng, n, tier)
     if replay_case is not None:
         cases = [replay_case]
     # drop duplicates, keep order
@@ -795,6 +840,9 @@ def run(run, tier, seed, replay_case=None):
     cov["distinct_nontrivial"] = len(distinct)
     cov["rule"] = ("expression texts: a deterministic batch (every boundary literal x suffix alone and under each unary operator; "
                    "24 typed operands pairwise under each of the 18 binary operators; ?: over 5 conditions x 8 x 7 typed branches) "
+                   "plus mixed integer/float32/double comparisons and arithmetic whose integer operand is not representable in "
+                   "the floating type it is converted to (2^24+-1, 2^24+3, 2^31-1, 2^32-1, 2^53+-1, 2^53+3, 2^63-1, 2^64-1 against "
+                   "exactly representable float/double neighbours, both operand orders) "
                    "plus seeded random trees of depth <= 4 over all literal kinds (decimal/octal/hex/binary with every suffix, "
                    "bool, float/double), guarded divisions and shifts, operands that C++ leaves unevaluated; 70% fully "
                    "parenthesised, 30% minimal parentheses; non-trivial = contains at least one binary or conditional "
@@ -803,7 +851,9 @@ def run(run, tier, seed, replay_case=None):
     cov["samples"] = [dict(case=cases[i], impl=I[i], model=R[i], spec=S[i], gxx=gx[i]) for i in pick]
     run.assumptions = ["LP64 target, g++ 12 as the reference compiler (implementation-defined: signed conversion modulo 2^N, "
                        "arithmetic right shift)",
-                       "float subresults in generated cases are exactly representable; float literals are carried as payloads",
+                       "floating LITERALS in generated cases are exactly representable in their type (payloads; atof vs compiler "
+                       "rounding is not compared); conversions and arithmetic results may round: library, OCaml float instance "
+                       "(correctly rounded + - * /, int->float32/double) and g++ must agree bit for bit",
                        "integer literals without sign (the tokenizer never passes one to primitive::load)"]
 
 
